@@ -273,6 +273,49 @@ def scenario(cname, rnd, Stub):
                 S = z3.SetAdd(S, kc.get(k, z3.Const("key!" + k, T.Key)))
             facts.append(T.TXset(g, O1) == S)
         return inst, o, facts, vals
+    def native_table(obj):
+        """the four outcomes of a REAL child under o, in the table format of the stubs"""
+        from labrea.exceptions import KeyNotFoundError as KNF
+
+        def run(f):
+            try:
+                return ("ok", f())
+            except Exception as e:  # noqa
+                x = e
+                mk = None
+                while x is not None:
+                    if isinstance(x, KNF):
+                        mk = x.key
+                    x = x.__cause__
+                return ("missing", mk) if mk is not None else ("fail",)
+        ev = run(lambda: obj.evaluate(dict(o)))
+        vl = run(lambda: obj.validate(dict(o)))
+        ks = run(lambda: obj.keys(dict(o)))
+        ex = run(lambda: obj.explain(dict(o)))
+        return {"evaluate": ev, "validate": vl if vl[0] != "ok" else ("ok",), "keys": ("ok", sorted(ks[1])) if ks[0] == "ok" else ks,
+                "explain": ("ok", sorted(ex[1])) if ex[0] == "ok" else ex}
+    if cname in ("FunctionApplication", "PartialApplication"):
+        from labrea.application import FunctionApplication, PartialApplication
+        f = Fn("f1", "ret-f1", raises=rnd.random() < 0.3)
+        fv = z3.Const("cv!f1", T.Val)
+        vals["ret-f1"] = z3.Const("cv!ret-f1", T.Val)
+        cls_ = FunctionApplication if cname == "FunctionApplication" else PartialApplication
+        inst = cls_(f, stubs["c0"], b=stubs["c1"]) if rnd.random() < 0.7 else cls_(f)
+        tf, ta = z3.Const("cc!func", T.Ev), z3.Const("cc!args", T.Ev)
+        av = z3.Const("cv!args", T.Val)
+        vals2 = dict(vals)
+        tab_f = native_table(inst.func)
+        tab_a = native_table(inst.arguments)
+        if tab_f["evaluate"][0] == "ok":
+            vals2[tab_f["evaluate"][1]] = fv
+        if tab_a["evaluate"][0] == "ok":
+            tab_a = dict(tab_a)
+            tab_a["evaluate"] = ("ok", "ARGS")
+            vals2["ARGS"] = av
+        facts += [z3.Distinct(tf, ta, *cterm.values(), SELF), z3.Distinct(fv, av, *vals.values())]
+        facts += facts_for(tf, tab_f, O1, vals2, keyconst) + facts_for(ta, tab_a, O1, vals2, keyconst)
+        facts += [fld(cname, "func") == tf, fld(cname, "arguments") == ta] + fn_facts(fv, f, vals["ret-f1"])
+        return inst, o, facts, vals
     if cname == "Value":
         from labrea import Value
         inst = Value("val-c0")
@@ -393,7 +436,8 @@ def crosscheck(cname, seed=0, samples=20, repo=None):
             if nat[0] == "exc" and kinds == {"ok"}:
                 mismatches.append((cname, meth, o, "native fails but every consistent symbolic path returns", nat))
             # key sets of keys()/explain() on the consistent returning paths
-            ALLK = KEYS + ["S", "S.X", "NOPE"]
+            fs = " ".join(str(x) for x in facts[:3])
+            ALLK = [k for k in KEYS + ["S", "S.X", "NOPE"] if ("key!" + k + ",") in fs or ("key!" + k + ")") in fs]
             if nat[0] == "ok" and meth in ("keys", "explain") and isinstance(nat[1], set) and nat[1] <= set(ALLK):
                 keyconst = {k: z3.Const("key!" + k, T.Key) for k in ALLK}
                 for p in [p for p in consistent if p.kind == "ok" and p.value[0] == "kset"]:
@@ -417,7 +461,7 @@ def crosscheck(cname, seed=0, samples=20, repo=None):
     return mismatches, checked
 
 
-CLASSES = ["Logged", "PipelineStep", "Iter", "EvaluatableArgs", "Coalesce", "Switch", "Overloaded", "Value", "Apply", "Bind", "EvaluatableKwargs", "CaseWhen", "Option"]
+CLASSES = ["Logged", "PipelineStep", "Iter", "EvaluatableArgs", "Coalesce", "Switch", "Overloaded", "Value", "Apply", "Bind", "EvaluatableKwargs", "CaseWhen", "Option", "FunctionApplication", "PartialApplication"]
 
 if __name__ == "__main__":
     import sys
